@@ -67,13 +67,13 @@ Fixpoint custom_sem (ts : list tok) (p : nat) : bool * nat :=
       end
   end.
 
-Definition srun_t := G -> val -> nat -> reg -> option sres.
+Definition srun_t := G -> env -> nat -> reg -> option sres.
 
 Section SLoops.
 Variable run : srun_t.
 
 (* ordered choice: the first alternative that succeeds; never revisited *)
-Fixpoint choice_sem (gs : list G) (ctx : val) (p : nat) (a : reg) : option sres :=
+Fixpoint choice_sem (gs : list G) (ctx : env) (p : nat) (a : reg) : option sres :=
   match gs with
   | [] => Some (None, a)
   | g :: r =>
@@ -84,7 +84,7 @@ Fixpoint choice_sem (gs : list G) (ctx : val) (p : nat) (a : reg) : option sres 
   end.
 
 (* sequence: left to right, values collected *)
-Fixpoint group_sem (gs : list G) (ctx : val) (p : nat) (a : reg) (accv : list val) (acce : list lerr)
+Fixpoint group_sem (gs : list G) (ctx : env) (p : nat) (a : reg) (accv : list val) (acce : list lerr)
   : option sres :=
   match gs with
   | [] => Some (Some (VList (rev accv), p, acce), a)
@@ -102,7 +102,7 @@ Inductive snext :=
 | SSome (v : val) (p : nat) (ems : list lerr)
 | SErr.
 
-Definition rep_snext (a : G) (lo : nat) (hi : option nat) (ctx : val) (c : nat) (p : nat) (r : reg)
+Definition rep_snext (a : G) (lo : nat) (hi : option nat) (ctx : env) (c : nat) (p : nat) (r : reg)
   : option (snext * nat * reg) :=
   if at_cap c hi then Some (SNone p [], c, r) else
   match run a ctx p r with
@@ -113,7 +113,7 @@ Definition rep_snext (a : G) (lo : nat) (hi : option nat) (ctx : val) (c : nat) 
 
 (* the item part of a separated_by step; [p] is the position before the separator,
    [ps, es] the position and emissions after the (optional) separator *)
-Definition sep_sitem (a : G) (lo : nat) (trail : bool) (ctx : val) (c : nat) (p : nat)
+Definition sep_sitem (a : G) (lo : nat) (trail : bool) (ctx : env) (c : nat) (p : nat)
            (ps : nat) (es : list lerr) (r0 : reg) : option (snext * nat * reg) :=
   match run a ctx ps r0 with
   | Some (Some (v, p1, e1), r1) => Some (SSome v p1 (es ++ e1), S c, r1)
@@ -124,7 +124,7 @@ Definition sep_sitem (a : G) (lo : nat) (trail : bool) (ctx : val) (c : nat) (p 
   | None => None
   end.
 
-Definition sep_snext (a sep : G) (lo : nat) (hi : option nat) (lead trail : bool) (ctx : val)
+Definition sep_snext (a sep : G) (lo : nat) (hi : option nat) (lead trail : bool) (ctx : env)
            (c : nat) (p : nat) (r : reg) : option (snext * nat * reg) :=
   if at_cap c hi then Some (SNone p [], c, r) else
   if andb (Nat.eqb c 0) lead then
@@ -141,7 +141,7 @@ Definition sep_snext (a sep : G) (lo : nat) (hi : option nat) (lead trail : bool
     end
   else sep_sitem a lo trail ctx c p p [] r.
 
-Fixpoint it_snext (i : IT) (ctx : val) (its : itst) (p : nat) (r : reg) : option (snext * itst * reg) :=
+Fixpoint it_snext (i : IT) (ctx : env) (its : itst) (p : nat) (r : reg) : option (snext * itst * reg) :=
   match i, its with
   | IRep a lo hi, SCount c =>
       match rep_snext a lo hi ctx c p r with
@@ -167,7 +167,7 @@ Fixpoint it_snext (i : IT) (ctx : val) (its : itst) (p : nat) (r : reg) : option
   | IMapWith f j, _ =>
       match it_snext j ctx its p r with
       | Some (SSome v p1 e1, js', r') =>
-          Some (SSome (apmw f v (spn p p1) (p, p1) (ust_at p1) ctx) p1 e1, js', r')
+          Some (SSome (apmw f v (spn p p1) (p, p1) (ust_at p1) (cval ctx)) p1 e1, js', r')
       | res => res
       end
   | IOrNot a, SFlag fin =>
@@ -183,7 +183,7 @@ Fixpoint it_snext (i : IT) (ctx : val) (its : itst) (p : nat) (r : reg) : option
 (* all items of an iteration (at most [lim] of them), greedily: the items with the positions
    before and after each, the end position, the emissions, and whether the iterator ended *)
 Definition sitem := (val * nat * nat)%type.
-Fixpoint sdrive (fuel : nat) (i : IT) (ctx : val) (its : itst) (lim : option nat)
+Fixpoint sdrive (fuel : nat) (i : IT) (ctx : env) (its : itst) (lim : option nat)
          (acc : list sitem) (acce : list lerr) (p : nat) (r : reg)
   : option (option (list sitem * bool * nat * list lerr) * reg) :=
   match fuel with
@@ -203,7 +203,7 @@ Fixpoint sdrive (fuel : nat) (i : IT) (ctx : val) (its : itst) (lim : option nat
   end.
 
 (* skip_until: the fewest skip steps after which `until` matches *)
-Fixpoint skip_until_sem (fuel : nat) (skip until : G) (ctx : val) (p : nat) (r : reg) (acce : list lerr)
+Fixpoint skip_until_sem (fuel : nat) (skip until : G) (ctx : env) (p : nat) (r : reg) (acce : list lerr)
   : option (option (nat * list lerr) * reg) :=
   match fuel with
   | 0 => None
@@ -222,7 +222,7 @@ Fixpoint skip_until_sem (fuel : nat) (skip until : G) (ctx : val) (p : nat) (r :
 
 (* skip_then_retry_until: after each skip step retry g, accepting only an error-free retry;
    give up when `until` matches or skipping fails *)
-Fixpoint skip_retry_sem (fuel : nat) (g skip until : G) (ctx : val) (p : nat) (r : reg) (acce : list lerr)
+Fixpoint skip_retry_sem (fuel : nat) (g skip until : G) (ctx : env) (p : nat) (r : reg) (acce : list lerr)
   : option (option (val * nat * list lerr) * reg) :=
   match fuel with
   | 0 => None
@@ -245,6 +245,103 @@ Fixpoint skip_retry_sem (fuel : nat) (g skip until : G) (ctx : val) (p : nat) (r
       end
   end.
 
+(* ---------- Pratt: the binding-power algorithm over positions ---------- *)
+Inductive spresult := SDone (x : option sres) | SNext (a : reg).
+
+Section SPrattOps.
+Variable rec : nat -> nat -> reg -> option sres.     (* min power -> position -> register -> result *)
+
+(* the first prefix operator (in table order) whose operator and operand both match *)
+Fixpoint pratt_sprefix (ops : list pop) (ctx : env) (start : nat) (a : reg) : spresult :=
+  match ops with
+  | [] => SNext a
+  | PPrefix bp og k :: rest =>
+      match run og ctx start a with
+      | Some (Some (vop, p1, e1), a1) =>
+          match rec (2 * bp) p1 a1 with
+          | Some (Some (vr, p2, e2), a2) => SDone (Some (Some (pfold_prefix k vop vr (spn start p2), p2, e1 ++ e2), a2))
+          | Some (None, a2) => pratt_sprefix rest ctx start a2
+          | None => SDone None
+          end
+      | Some (None, a1) => pratt_sprefix rest ctx start a1
+      | None => SDone None
+      end
+  | _ :: rest => pratt_sprefix rest ctx start a
+  end.
+
+(* the first postfix operator binding at least as tightly as required whose operator matches at p *)
+Fixpoint pratt_spostfix (ops : list pop) (ctx : env) (minp : nat) (start : nat) (lhs : val) (p : nat) (a : reg)
+  : spresult :=
+  match ops with
+  | [] => SNext a
+  | PPostfix bp og k :: rest =>
+      if Nat.leb minp (2 * bp + 1) then
+        match run og ctx p a with
+        | Some (Some (vop, p1, e1), a1) => SDone (Some (Some (pfold_postfix k lhs vop (spn start p1), p1, e1), a1))
+        | Some (None, a1) => pratt_spostfix rest ctx minp start lhs p a1
+        | None => SDone None
+        end
+      else pratt_spostfix rest ctx minp start lhs p a
+  | _ :: rest => pratt_spostfix rest ctx minp start lhs p a
+  end.
+
+(* the first infix operator binding at least as tightly as required whose operator and right
+   operand (parsed with the operator's right power) both match; an operator whose right
+   operand is missing is left unconsumed and the next operator is tried *)
+Fixpoint pratt_sinfix (ops : list pop) (ctx : env) (minp : nat) (start : nat) (lhs : val) (p : nat) (a : reg)
+  : spresult :=
+  match ops with
+  | [] => SNext a
+  | PInfix r bp og k :: rest =>
+      if Nat.leb minp (lpow r bp) then
+        match run og ctx p a with
+        | Some (Some (vop, p1, e1), a1) =>
+            match rec (rpow r bp) p1 a1 with
+            | Some (Some (vr, p2, e2), a2) =>
+                SDone (Some (Some (pfold_infix k lhs vop vr (spn start p2), p2, e1 ++ e2), a2))
+            | Some (None, a2) => pratt_sinfix rest ctx minp start lhs p a2
+            | None => SDone None
+            end
+        | Some (None, a1) => pratt_sinfix rest ctx minp start lhs p a1
+        | None => SDone None
+        end
+      else pratt_sinfix rest ctx minp start lhs p a
+  | _ :: rest => pratt_sinfix rest ctx minp start lhs p a
+  end.
+End SPrattOps.
+
+Fixpoint pratt_sem (fuel : nat) (atom : G) (ops : list pop) (ctx : env) (minp : nat) (p : nat) (a : reg)
+         {struct fuel} : option sres :=
+  match fuel with
+  | 0 => None
+  | S f =>
+      match pratt_sprefix (pratt_sem f atom ops ctx) ops ctx p a with
+      | SDone (Some (Some (v, p1, e1), a1)) => pratt_sloop f atom ops ctx minp p v e1 p1 a1
+      | SDone x => x
+      | SNext a1 =>
+          match run atom ctx p a1 with
+          | Some (Some (v, p1, e1), a2) => pratt_sloop f atom ops ctx minp p v e1 p1 a2
+          | x => x
+          end
+      end
+  end
+with pratt_sloop (fuel : nat) (atom : G) (ops : list pop) (ctx : env) (minp : nat) (start : nat)
+                 (lhs : val) (acce : list lerr) (p : nat) (a : reg) {struct fuel} : option sres :=
+  match fuel with
+  | 0 => None
+  | S f =>
+      match pratt_spostfix ops ctx minp start lhs p a with
+      | SDone (Some (Some (v, p1, e1), a1)) => pratt_sloop f atom ops ctx minp start v (acce ++ e1) p1 a1
+      | SDone x => x
+      | SNext a1 =>
+          match pratt_sinfix (pratt_sem f atom ops ctx) ops ctx minp start lhs p a1 with
+          | SDone (Some (Some (v, p1, e1), a2)) => pratt_sloop f atom ops ctx minp start v (acce ++ e1) p1 a2
+          | SDone x => x
+          | SNext a2 => Some (Some (lhs, p, acce), a2)
+          end
+      end
+  end.
+
 End SLoops.
 
 Definition sitem_val (it : sitem) : val := match it with (v, _, _) => v end.
@@ -254,7 +351,7 @@ Definition sitem_after (it : sitem) : nat := match it with (_, _, a) => a end.
 Definition sctxify (l : nat) (start : nat) (e : lerr) : lerr :=
   (fst e, in_context K l (spn start (fst e)) (snd e)).
 
-Fixpoint sem (n : nat) (g : G) (ctx : val) (p : nat) (a : reg) {struct n} : option sres :=
+Fixpoint sem (n : nat) (g : G) (ctx : env) (p : nat) (a : reg) {struct n} : option sres :=
   match n with
   | 0 => None
   | S n' =>
@@ -290,7 +387,7 @@ Fixpoint sem (n : nat) (g : G) (ctx : val) (p : nat) (a : reg) {struct n} : opti
            end
   | Map f x => seq (run x ctx p a) (fun v p1 e1 a1 => Some (Some (ap1 f v, p1, e1), a1))
   | MapWith f x =>
-      seq (run x ctx p a) (fun v p1 e1 a1 => Some (Some (apmw f v (spn p p1) (p, p1) (ust_at p1) ctx, p1, e1), a1))
+      seq (run x ctx p a) (fun v p1 e1 a1 => Some (Some (apmw f v (spn p p1) (p, p1) (ust_at p1) (cval ctx), p1, e1), a1))
   | To k x => seq (run x ctx p a) (fun _ p1 e1 a1 => Some (Some (VNat k, p1, e1), a1))
   | Ignored x => seq (run x ctx p a) (fun _ p1 e1 a1 => Some (Some (VUnit, p1, e1), a1))
   | ToSpan x => seq (run x ctx p a) (fun _ p1 e1 a1 => Some (Some (vspan (spn p p1), p1, e1), a1))
@@ -484,25 +581,33 @@ Fixpoint sem (n : nat) (g : G) (ctx : val) (p : nat) (a : reg) {struct n} : opti
       | Some (None, None) => None
       | None => None
       end
-  | WithCtx c x => run x c p a
+  | WithCtx c x => run x (with_ctx ctx c) p a
   | IgnoreWithCtx x y =>
       seq (run x ctx p a) (fun va p1 e1 a1 =>
-      seq (run y va p1 a1) (fun vb p2 e2 a2 => Some (Some (vb, p2, e1 ++ e2), a2)))
+      seq (run y (with_ctx ctx va) p1 a1) (fun vb p2 e2 a2 => Some (Some (vb, p2, e1 ++ e2), a2)))
   | ThenWithCtx x y =>
       seq (run x ctx p a) (fun va p1 e1 a1 =>
-      seq (run y va p1 a1) (fun vb p2 e2 a2 => Some (Some (VPair va vb, p2, e1 ++ e2), a2)))
-  | MapCtx f x => run x (ap1 f ctx) p a
+      seq (run y (with_ctx ctx va) p1 a1) (fun vb p2 e2 a2 => Some (Some (VPair va vb, p2, e1 ++ e2), a2)))
+  | MapCtx f x => run x (with_ctx ctx (ap1 f (cval ctx))) p a
   | JustCfg _ =>
-      Some match just_sem (val_toks ctx) p a with
-           | (Some p1, a1) => (Some (VList (map VTok (val_toks ctx)), p1, []), a1)
+      Some match just_sem (val_toks (cval ctx)) p a with
+           | (Some p1, a1) => (Some (VList (map VTok (val_toks (cval ctx))), p1, []), a1)
            | (None, a1) => (None, a1)
            end
+  | Memo _ x => run x ctx p a                    (* memoization is invisible *)
+  | Rec x => run x (mkEnv (cval ctx) (x :: crec ctx)) p a
+  | Var k =>
+      match nth_error (crec ctx) k with
+      | Some x => run x (mkEnv (cval ctx) (skipn k (crec ctx))) p a
+      | None => None
+      end
+  | Pratt atom ops => pratt_sem run n' atom ops ctx 0 p a
   end
   end.
 
 (* the pure PEG reading: verdict, value, end position *)
 Definition peg (n : nat) (g : G) (p : nat) : option (option (val * nat)) :=
-  match sem n g VUnit p None with
+  match sem n g env0 p None with
   | Some (Some (v, p1, _), _) => Some (Some (v, p1))
   | Some (None, _) => Some None
   | None => None
@@ -510,7 +615,7 @@ Definition peg (n : nat) (g : G) (p : nat) : option (option (val * nat)) :=
 
 (* top level: the grammar must match the whole input *)
 Definition sem_top (n : nat) (g : G) : option (option val * list err) :=
-  match sem n (ThenIgnore g End) VUnit 0 None with
+  match sem n (ThenIgnore g End) env0 0 None with
   | Some (Some (v, _, ems), _) => Some (Some v, map snd ems)
   | Some (None, a) =>
       Some (None, [match a with Some (_, e) => e | None => expected_found K [] None (spn 0 0) end])
